@@ -1,0 +1,39 @@
+//go:build verif
+
+package executor
+
+// Verification hook for property C09 (add-only): exported access to the unexported
+// StateDB.enableMVCC and to a private instance of the "mvcc" plugin type with an
+// executor environment that carries only what the plugin reads (localDB, height).
+// No logic here.
+
+import (
+	dbm "github.com/33cn/chain33/common/db"
+	"github.com/33cn/chain33/types"
+)
+
+// VerifEnableMVCC calls (*StateDB).enableMVCC(hash) on a db returned by NewStateDB and
+// returns the version the state db reads at afterwards (-1: mvcc not in use).
+func VerifEnableMVCC(kv dbm.KV, hash []byte) int64 {
+	s := kv.(*StateDB)
+	s.enableMVCC(hash)
+	return s.version
+}
+
+// VerifMVCCPlugin is a private mvccPlugin (own flag cache, like a fresh process).
+type VerifMVCCPlugin struct{ p mvccPlugin }
+
+// CheckEnable calls (*mvccPlugin).CheckEnable.
+func (v *VerifMVCCPlugin) CheckEnable(localdb dbm.KVDB, height int64, enable bool) ([]*types.KeyValue, bool, error) {
+	return v.p.CheckEnable(&executor{localDB: localdb, height: height}, enable)
+}
+
+// ExecLocal calls (*mvccPlugin).ExecLocal.
+func (v *VerifMVCCPlugin) ExecLocal(localdb dbm.KVDB, detail *types.BlockDetail) ([]*types.KeyValue, error) {
+	return v.p.ExecLocal(&executor{localDB: localdb, height: detail.Block.Height}, detail)
+}
+
+// ExecDelLocal calls (*mvccPlugin).ExecDelLocal.
+func (v *VerifMVCCPlugin) ExecDelLocal(localdb dbm.KVDB, detail *types.BlockDetail) ([]*types.KeyValue, error) {
+	return v.p.ExecDelLocal(&executor{localDB: localdb, height: detail.Block.Height}, detail)
+}
